@@ -9,6 +9,17 @@ CHECKS = {
          "trusts the 40-line reference (refFormat/c15Classify) and massutil.MaxAmount as the supply limit; strings \"\", \".\", \"1.\", \".5\" treated as unspecified", "§5 C15"),
 }
 
+CHECKS["C13"] = ("exploration", "differential monitor: two independent BIP-39 references (Go bit-level codec + own PBKDF2; python hashlib at run time) vs the real keystore functions on seeded entropies and sentence mutants",
+  "every NewMnemonic / EntropyFromMnemonic / MnemonicToByteArray / NewSeed(WithErrorChecking) result on the explored entropies (all five sizes, leading-zero and edge classes) and sentence mutants (substitute, swap, drop, add, re-space, pad) is compared with references that share no code with the repo",
+  "trusts sha256/hmac/sha512 of the Go standard library and python hashlib, and the harness copy of the English word list (hash-checked)", "§5 C13")
+
+CHECKS["C14"] = ("exploration", "differential monitor: fixed-width BIP-32 reference (cross-checked at run time with a pure-python secp256k1 implementation) vs hdkeychain on seeded paths, targeted leading-zero parents and exhaustive single-character / single-byte corruptions",
+  "every key produced by NewMaster/Child/Neuter/String/NewKeyFromString on the explored seeds and paths is compared field by field with a reference sharing no derivation code; the leading-zero-scalar class is constructed in every run (hash search), not left to luck; corruptions of serialised keys are enumerated per position",
+  "trusts btcec point arithmetic, x/crypto ripemd160, Go crypto/hmac+sha512; python reference anchored on BIP-32 test vector 1", "§5 C14")
+CHECKS["C16"] = ("exploration", "differential monitor: consensus script library (mass-core txscript/massutil) on the same bytes vs utils.ParsePkScript and api.DecodeRawTransaction, under recover(), over templates, mutants and random bytes",
+  "every script of the seeded stream (three templates with boundary frozen periods and legal/illegal binding targets, eight mutation kinds, random bytes ≤300 B) is read by the wallet and by the consensus library and all accessors are compared; panics are caught per call",
+  "mass-core is the reference and is trusted; staking maturity for frozen period 2^64-1 unspecified", "§5 C16")
+
 NOT_APPLICABLE = {}
 
 def main():
